@@ -265,6 +265,9 @@ func runC07(args []string) int {
 	alpha = append(alpha, scInvalidLines...)
 	alpha = append(alpha, scNearMisses...)
 	alpha = append(alpha, scNonASCII...)
+	// values whose parts are separated by more than one blank (SplitN(" ", 2) keeps the rest verbatim, TrimSpace only trims the ends)
+	alpha = append(alpha, "# pint snooze 2099-01-01  promql/series", "# pint file/snooze 2099-01-01   promql/rate", "# pint snooze 2099-01-01 \talerts/for",
+		"# pint snooze 2099-01-01  a  b", "# pint disable  promql/series", "# pint rule/set  promql/series  min-age 1d", "# pint file/owner  bob  ", "# pint snooze 2000-01-01  x")
 	for _, f := range c07CorpusLines() {
 		addParse("corpus", 1, f)
 	}
